@@ -234,6 +234,9 @@ def rich_impl(rng, trait_path, ty):
                              deps=rng.choice([d for d in DEPS if "Concrete" not in d[1] and "(u8" not in d[1] and "[u8" not in d[1]])))
     items += rng.sample(IMPL_ITEMS_OTHER, rng.randint(0, 3))
     rng.shuffle(items)
+    if rng.random() < 0.12:
+        # inner attributes open the impl body
+        items = rng.sample(INNER_ATTRS, rng.randint(1, 2)) + items
     attrs = rng.sample(["/// impl docs", "#[allow(dead_code)]", "#[cfg(all())]", "#[::async_trait::async_trait]",
                         "#[async_trait]", "#[async_trait(?Send)]", "#[mockall::automock]", "#[automock]", "#[::vattr::mark(on_impl)]",
                         "#[doc(hidden)]", "#[rustfmt::skip]"], rng.randint(0, 3))
